@@ -485,10 +485,12 @@ def run_unit(unit, tier='quick', keep_dir=None):
             res.status = 'undecided' if 'timeout' in res.detail else 'error'
             return res
         obs = res.obligations
-        reach = [o for o in obs if o['description'] == 'REACH']
+        reach = [o for o in obs if o['description'] == 'REACH' and o['function'] == unit.entry]
+        obs = [o for o in obs if not (o['description'] == 'REACH' and o['function'] != unit.entry)]
+        res.obligations = obs
         failing = [o for o in obs if o['status'] == 'FAILURE' and o['description'] != 'REACH']
         unknown = [o for o in obs if o['status'] not in ('SUCCESS', 'FAILURE')]
-        if unknown:
+        if unknown and not failing:
             res.status = 'undecided'
             res.detail += '%d obligations with status %s (solver gave no verdict); ' % (len(unknown), unknown[0]['status'])
             return res
